@@ -814,22 +814,38 @@ impl EquivalenceGroup {
     ) -> Result<Self> {
         let group = match join_type {
             JoinType::Inner | JoinType::Left | JoinType::Full | JoinType::Right => {
-                // Right and full joins pad left rows with NULLs, so a constant of
-                // the left input is not constant in the join output.
+                // Outer joins pad the rows of one or both inputs with NULLs, so an
+                // expression that is constant in such an input (flagged as constant,
+                // or known equal to a literal) is not constant in the join output.
                 let pads_left = matches!(join_type, JoinType::Right | JoinType::Full);
+                let pads_right = matches!(join_type, JoinType::Left | JoinType::Full);
+                let forget_constants = |mut cls: EquivalenceClass| {
+                    cls.constant = None;
+                    cls.exprs
+                        .retain(|expr| expr.downcast_ref::<Literal>().is_none());
+                    cls
+                };
                 let mut result = Self::new(
                     self.iter()
                         .cloned()
-                        .map(|mut cls| {
+                        .map(|cls| {
                             if pads_left {
-                                cls.constant = None;
+                                forget_constants(cls)
+                            } else {
+                                cls
                             }
-                            cls
                         })
                         .chain(
                             right_equivalences
                                 .iter()
-                                .map(|cls| cls.try_with_offset(left_size as _))
+                                .map(|cls| {
+                                    let cls = cls.try_with_offset(left_size as _)?;
+                                    Ok(if pads_right {
+                                        forget_constants(cls)
+                                    } else {
+                                        cls
+                                    })
+                                })
                                 .collect::<Result<Vec<_>>>()?,
                         ),
                 );
